@@ -289,16 +289,16 @@ def _parse_directive_options(
                     )
                 )
 
+    if additional_options:
+        # The options block takes priority over additional options
+        options = {**additional_options, **options}
+
     if issubclass(directive_class, TestDirective):
         # technically this directive spec only accepts one option ('option')
         # but since its for testing only we accept all options
         return _DirectiveOptions(
             content, options, validation_errors, has_options_block
         )
-
-    if additional_options:
-        # The options block takes priority over additional options
-        options = {**additional_options, **options}
 
     # check options against spec
     options_spec: dict[str, Callable] = directive_class.option_spec
